@@ -228,9 +228,9 @@ def do_execute(world, child_id, by):
 
 def do_service(world, sid, by):
     sspec = world.services[sid]
-    cls = service_class(world, sspec["flavour"])
+    cls = service_class(world, sspec)
     LOG("call", op="service", pid="svc:%s" % sid, by=by, gen=world.gen)
-    inst = cls(world, sspec)
+    inst = cls()
     world.instances[sid] = inst
     LOG("return", op="service", pid="svc:%s" % sid, by=by, gen=world.gen)
 
@@ -245,27 +245,22 @@ def do_shutdown(world, by):
     LOG("return", op="shutdown", by=by, gen=world.gen)
 
 
-def service_class(world, flavour):
-    if flavour in world.service_classes:
-        return world.service_classes[flavour]
+def service_class(world, sspec):
+    """A fresh service class per instance, without __init__: the ServiceUnit is registered in
+    __new__, i.e. before __init__ has run, and the accept loop may start run() in between (a
+    race of its own, probed by the C13 check) - the harness must not depend on it."""
+    flavour = sspec["flavour"]
+    bound = dict(sspec, id="svc:%s" % sspec["id"])
     if flavour == "threading":
         class Svc(object):
-            def __init__(self, w, sspec):
-                self.w, self.sspec = w, sspec
-
             def run(self):
-                return run_sync(self.w, dict(self.sspec, id="svc:%s" % self.sspec["id"]), (), {})
+                return run_sync(world, bound, (), {})
     else:
         class Svc(object):
-            def __init__(self, w, sspec):
-                self.w, self.sspec = w, sspec
-
             async def run(self):
-                return await run_async(self.w, dict(self.sspec, id="svc:%s" % self.sspec["id"]), (), {})
+                return await run_async(world, bound, (), {})
     Svc.__name__ = Svc.__qualname__ = "Svc_%s" % flavour
-    cls = service(flavour=FLAVOURS[flavour])(Svc)
-    world.service_classes[flavour] = cls
-    return cls
+    return service(flavour=FLAVOURS[flavour])(Svc)
 
 
 # ------------------------------------------------------------------------------ payload programs
@@ -409,6 +404,14 @@ def run_sync(world, pspec, args, kwargs):
                 LOG("block-start", pid=pid, gen=world.gen)
                 world.release.wait(op[1] if len(op) > 1 else None)
                 LOG("block-end", pid=pid, gen=world.gen)
+            elif kind == "private_loop_adopt":
+                # a thread payload that drives its own private asyncio loop and adopts from inside it
+                async def _foreign(children=op[1], linger=op[2]):
+                    for child in children:
+                        do_adopt(world, child, by=pid)
+                    await asyncio.sleep(linger)
+
+                asyncio.run(_foreign())
             elif kind == "gate":
                 if not world.gate(op[1]).wait(op[2] if len(op) > 2 else 10):
                     LOG("gate-timeout", pid=pid, gen=world.gen, gate=op[1])
